@@ -175,6 +175,27 @@ def solved(rec, ground, rnd, f, unit, k, out):
     dev = np.abs(g[big] - 10 * np.log10(lin[big])).max(initial=0)
     if dev > 2e-3:
         out['mism'].append(dict(what='solved-gain-vs-input-power', err=float(dev), absorbing=bool(min(parts) < 0)))
+    # clause 2 (solved currents): within 2 % of the pattern maximum of the exact integral over the straight half
+    # segments, for segments up to 1/18 wavelength
+    lam = 2 * math.pi / k
+    if max(max(p['lens']) for p in geo.pulses) <= lam / 18:
+        et, ep = np.array(ff.e_theta), np.array(ff.e_phi)
+        if et.shape != zz.shape:
+            et, ep = et.T, ep.T
+        ex = np.array([geo.far_E(I, k, zz[idx], aa[idx], exact=True) for idx in np.ndindex(zz.shape)]).reshape(zz.shape + (2,))
+        sc = np.abs(ex).max()
+        d2 = max(np.abs(et - ex[..., 0]).max(), np.abs(ep - ex[..., 1]).max()) / sc
+        out['exact_dev'] = float(d2)
+        if d2 > 0.02:
+            kinds = [p['kind'] for p in rec['pulses']]
+            # is the reported field, for these solved currents, exactly the sum with the moments at the pulse points
+            # (clause 1)?  Then the deviation from the exact integral is the distance between the two formulas.
+            pp = np.array([geo.far_E(I, k, zz[idx], aa[idx]) for idx in np.ndindex(zz.shape)]).reshape(zz.shape + (2,))
+            c1 = max(np.abs(et - pp[..., 0]).max(), np.abs(ep - pp[..., 1]).max()) / sc
+            out['mism'].append(dict(what='exact-half-segment-integral', err=float(d2), npulses=N,
+                                    cause='moments-at-the-pulse-points-as-clause-1-demands' if c1 < 1e-9 else None,
+                                    junctions=sum(1 for x in kinds if x in ('J1', 'J2')),
+                                    longest_segment_wavelengths=float(max(max(p['lens']) for p in geo.pulses) / lam)))
 
 
 def jobs(chk, tier):
@@ -200,13 +221,16 @@ def run(tier):
             chk.cov['solved_models'] = chk.cov.get('solved_models', 0) + 1
             chk.cov['solved_models_with_absorbing_generator'] = chk.cov.get('solved_models_with_absorbing_generator', 0) \
                 + int(o['solved']['absorbing'])
+        if o.get('exact_dev') is not None:
+            chk.cov['exact_integral_cases'] = chk.cov.get('exact_integral_cases', 0) + 1
+            chk.cov['exact_integral_worst_deviation'] = max(chk.cov.get('exact_integral_worst_deviation', 0.0), o['exact_dev'])
         if o.get('cancelled'):
             chk.cov['patterns_cancelled_to_rounding'] = chk.cov.get('patterns_cancelled_to_rounding', 0) + 1
         if o['exc']:
             chk.violation(dict(kind='exception', exc=o['exc'].split('(')[0]),
                           dict(input=r['input'], ground=g, exc=o['exc'], spec=r))
         for mm in o['mism']:
-            chk.violation(dict(kind=mm['what'], custom_power=mm.get('custom_power')),
+            chk.violation(dict(kind=mm['what'], custom_power=mm.get('custom_power'), cause=mm.get('cause')),
                           dict(input=r['input'], ground=g, info=mm, spec=r))
     return chk.finish(
         rule='one case per accepted final state of Topology.tla with at least one pulse (evaluations count compared '
